@@ -230,4 +230,37 @@ def formatBlock (c : Crypto) (txids : List Bytes) (proposer : Bytes) (key : Nat)
   let id := c.H (preimage b)
   { b with blockid := id, sign := if preHash.isEmpty then [] else c.signWith key id }
 
+/-! ### crypto faults
+
+The ledger reaches ECDSA and key handling through a crypto client whose requests can fail (hsm, remote signer,
+entropy source).  `fail` is the number of the request that reports failure, counted in the order the requests are
+made (0 = none fails). -/
+
+/-- `Ledger.formatBlock` (signed case) with the `fail`-th crypto request failing.  Requests in order: 1 the public key
+in JSON form, 2 the signature over the id (made only when `preHash` is not empty).  A failing request ends the call
+with its error: no block is handed out. -/
+def formatBlockF (c : Crypto) (txids : List Bytes) (proposer : Bytes) (key : Nat) (timestamp curTerm curBlockNum : Int)
+    (preHash : Bytes) (targetBits : Int) (qc : Option Justify) (failed : List (Bytes × Bytes)) (height : Int)
+    (fail : Nat) : Option Block :=
+  if fail == 1 then none
+  else if fail == 2 && !preHash.isEmpty then none
+  else some (formatBlock c txids proposer key timestamp curTerm curBlockNum preHash targetBits qc failed height)
+
+/-- the signature stage of `Ledger.VerifyBlock` with the `fail`-th crypto request failing.  Requests in order: 1 the key
+parsed from its JSON form, 2 the address check (reached only with a key), 3 the signature check (reached only when the
+address matched). -/
+def verifySigF (c : Crypto) (b : Block) (fail : Nat) : Bool :=
+  if fail == 1 then false else
+  match c.keyOf b.pubkey with
+  | none => false
+  | some k => (fail != 2 && c.addrOk b.proposer k) && (fail != 3 && c.verify k b.sign b.blockid)
+
+/-- `Ledger.VerifyBlock` with the `fail`-th crypto request failing (id and merkle checks make no request) -/
+def verifyBlockF (c : Crypto) (b : Block) (fail : Nat) : Bool :=
+  (c.H (preimage b) == b.blockid)
+  && (b.txCount == (b.txids.length : Int))
+  && b.txids.all (fun t => t.length == hashWidth)
+  && verifyMerkle c.H b
+  && verifySigF c b fail
+
 end XV.Merkle
